@@ -145,6 +145,14 @@ check("C14",
       "is evaluated in one merged graph in both orders vs separately; all records validated by the stateful trace spec TraceApi.tla.",
       TB + " Content digests identify values.", "TLC on extracted key-name dependency tables and call histories + replay in fresh processes + merged-graph evaluation", "DESIGN.md section 5 C14")
 
+check("C15",
+      "MC_XrDims: the dimension rule (group dimension once; exactly the reduced dimensions disappear; order kept) over all objects of 1-4 dimensions in every "
+      "order, 1-D/2-D groupers and every reduce set; every object shape x grouper kind x dim x function x skipna x dtype x chunked x DataArray|Dataset is run three "
+      "ways (specification's prediction, xarray_reduce, native xarray with use_flox=False = the oracle) and validated by TraceXr.tla: dims, coords, values, attrs, "
+      "name, values = groupby_reduce on the raw arrays, pass-through; prediction vs native is DRIFT only. Two Dataset-specific discrepancies are known findings.",
+      TB + " Native xarray is the oracle; the specification contributes the enumeration and the dims algebra (values are covered by C01/C02).",
+      "TLC dims-algebra model + three-way replay validated by trace specification", "DESIGN.md section 5 C15")
+
 ALL = [f"C{n:02d}" for n in range(1, 21)]
 
 def main():
